@@ -3,6 +3,7 @@ package main
 import (
 	"encoding/json"
 	"fmt"
+	"math"
 	"os"
 	"strings"
 	"sync/atomic"
@@ -118,7 +119,7 @@ func c29Run(c c29Case) *eng.Fail {
 
 func init() {
 	checks["C29"] = eng.Check{
-		Rule:        "format(text, indent, width) for EVERY string over {a, b, space} of length <=10 (thorough 14) without leading space x remaining width 1..5 x indentation 0..2 (+ widths 6..9 on the strings of length <=8), and every string of <=5 runes over {a, space, é (2 bytes), € (3 bytes), à and Å (2 bytes ending in a0 / 85)} x widths 1..6: termination (watchdog), every line = indentation tabs + at most width characters, the non-space characters equal the text's in order, a word is split only if longer than the width. Non-trivial = text that needs more than one line.",
+		Rule:        "format(text, indent, width) for EVERY string over {a, b, space} of length <=10 (thorough 14) without leading space x remaining width 1..5 x indentation 0..2 (+ widths 6..9 on the strings of length <=8), and every string of <=5 runes over {a, space, é (2 bytes), € (3 bytes), à and Å (2 bytes ending in a0 / 85)} x widths 1..6, and 4 texts x indentation 0..2 x screen widths 2^31-1, 2^31, 2^32+5, 2^62+1, MaxInt-1, MaxInt: termination (watchdog), every line = indentation tabs + at most width characters, the non-space characters equal the text's in order, a word is split only if longer than the width. Non-trivial = text that needs more than one line.",
 		Assumptions: []string{"single-line text without leading spaces and at least one character of room (the property's domain)"},
 		Run: func(r *eng.Run) {
 			maxLen := 10
@@ -250,6 +251,22 @@ func init() {
 				}
 			}
 			recU("", 0)
+			// widths at the far end of the legal range (a "never wrap" width): nothing may overflow
+			for _, txt := range []string{"a", "ab  abba b", "aaaa aaaa aaaa aaaa aaaa", "é €a"} {
+				for ind := 0; ind <= 2; ind++ {
+					for _, w := range []int{1 << 31, 1<<31 - 1, 1<<32 + 5, 1<<62 + 1, math.MaxInt - 8*ind - 1, math.MaxInt - 8*ind} {
+						c := c29Case{Text: txt, Indent: ind, Width: w}
+						slots[63].Store(c)
+						tick.Add(1)
+						f := c29Run(c)
+						r.Eval(1)
+						if f != nil {
+							r.Report(f)
+							r.Outcome(f.Sig)
+						}
+					}
+				}
+			}
 			r.Sample(c29Case{Text: "ab  abba b", Indent: 1, Width: 3})
 			_ = total
 		},
